@@ -131,7 +131,7 @@ macro_rules! with_decl {
     }};
 }
 
-const WANT: Want = Want { ids: false, as_map: false, nohint: false, enc: crate::obs::Enclosing::None };
+const WANT: Want = Want { ids: false, as_map: false, nohint: false, enc: crate::obs::Enclosing::None, specs: 0 };
 
 fn keys(case: &MCase) -> Vec<&'static str> {
     let mut k = vec!["a", "m", "z"];
